@@ -124,7 +124,7 @@ ESCAPES = ['\\"', '\\\\', '\\/', '\\b', '\\f', '\\n', '\\r', '\\t', '\\u0000', '
            '\\ud83d\\ude00', '\\x', '\\u12', 'é', '\U0001F600', '\x01', '\x7f', '\ud800', '﻿', ' ']
 
 
-def positions(lit):
+def positions(lit, echo=False):
     """a literal placed at top level, as id, in params, in a batch"""
     yield lit
     yield '{"jsonrpc":"2.0","method":"ok","id":%s}' % lit
@@ -135,6 +135,10 @@ def positions(lit):
     yield '{"jsonrpc":"2.0","method":"vboom","params":[%s],"id":1}' % lit
     yield '{"jsonrpc":"2.0","method":"pmax","params":[%s],"id":1}' % lit
     yield '{"jsonrpc":"2.0","method":"boom","params":[%s],"id":1}' % lit
+    if echo:
+        # (strings only: a method echoing a non-finite float would break the premise 'methods return JSON-encodable values')
+        yield '{"jsonrpc":"2.0","method":"echo","params":[%s],"id":1}' % lit
+        yield '[{"jsonrpc":"2.0","method":"echo","params":{"a":%s},"id":1},{"jsonrpc":"2.0","method":"echo","params":[%s]}]' % (lit, lit)
     yield '{"jsonrpc":%s,"method":"ok","id":1}' % lit
     yield '{"jsonrpc":"2.0","method":%s,"id":1}' % lit
     yield '{"jsonrpc":"2.0","method":"ok","params":%s,"id":1}' % lit
@@ -158,7 +162,7 @@ def g3_texts(ctx):
     for f in FLOATS:
         yield from positions(f)
     for e in ESCAPES:
-        yield from positions('"%s"' % e)
+        yield from positions('"%s"' % e, echo=True)
         yield '{"jsonrpc":"2.0","method":"%s","id":1}' % e
         yield '{"jsonrpc":"2.0","method":"ok","params":{"%s":1},"id":1}' % e
         yield '{"jsonrpc":"2.0","method":"ok","id":"%s"}' % e
@@ -265,6 +269,12 @@ def check_text(case, rec):
         rec.violation('C01:shape of return value', case, expected='None or (text, codes)', observed=repr(val)[:200])
         return ('badret',)
     text, codes = val
+    try:
+        text.encode('utf-8')
+    except UnicodeEncodeError as e:
+        # a response text is sent as UTF-8 (RFC 8259): raw unpaired surrogates cannot be
+        rec.violation('C01:response text cannot be encoded as UTF-8', case, expected='encodable text', observed='%s in %r' % (e.reason, text[max(0, e.start - 30):e.start + 10]))
+        return ('unencodable',)
     ok, tree = jsonstrict.parse(text)
     if not ok:
         rec.outcomes['not-json'] += 1
